@@ -177,36 +177,42 @@ PROPERTY_INFO: Dict[str, Dict] = {
     "C01": {
         "explanation": "Static analysis (ast): polynomial normal forms of every THL candidate (class entry x class "
         "entry x combinator) are compared with the cost evaluator's charge per event kind; species ranges of "
-        "the class entries are compared with the event they are used for; pruning, mirroring, decoder guards "
-        "and traversal order are checked structurally. Decides necessary conditions of optimality and of "
-        "'does not fail', not optimality itself.",
+        "the class entries are compared with the event they are used for; the evaluator's classification "
+        "predicate is extracted as a decision table over a finite relational model and compared with the "
+        "documented classification; pruning, mirroring, decoder guards, traversal order and the absence of "
+        "state that survives a call are checked structurally. Decides necessary conditions of optimality and "
+        "of 'does not fail', not optimality itself.",
         "decided": [
-            "every unit cost of the evaluator is read by the optimiser (COSTKEYS)",
+            "every unit cost of the evaluator is read by the optimiser (COSTKEYS); no cost is used as a truth value with a fallback (COST-TRUTH)",
             "no tag-dependent cost after pruning (PRUNE)",
             "per event kind the composed candidate equals the evaluator's charge (EVENT-SIG)",
             "class-entry species ranges match the event kind, both child orientations present (CLASS-DOMAIN, MIRROR)",
+            "node_event's decision table over all order types of (node, child, child) = documented classification (EVENT-TABLE)",
             "decoded mapping is the costed one (COMBINE-ORIENT, INFO-KEY)",
             "decoders never emit a partial mapping and enumerate all retained tags (DECODE-*)",
             "bottom-up fill, one anchored leaf entry, one result entry ranked by cost() (TRAVERSAL, LEAF-ANCHOR, RESULT-SCOPE)",
+            "the result is a function of the arguments at call time: no memo, no module or object state, input not written, constraint parameters forwarded (SOLVER-STATELESS, MEMO-KEY, READONLY-INPUT, ITERATOR-REUSE, RECURSE-FORWARD)",
         ],
         "not_decided": [
             "that a recurrence with these properties is optimal (induction over trees)",
             "completeness / uniqueness of generate_all (combinatorial)",
-            "F-COHERENCE (placement at the LCA costed as duplication): needs a model of ancestor relations",
+            "F-COHERENCE (placement at the LCA costed as duplication by the optimiser, speciation by the evaluator)",
         ],
     },
     "C02": {
         "explanation": "Static analysis (ast): the five class polynomials of the ordered recurrence and its six "
         "pairings are composed and compared with the evaluator's reconciliation + ordered labelling charge "
         "(incl. which child's end runs are free); the -1 sentinel must be tested before it is scaled; the "
-        "precedence graph must contain every family. Decides necessary conditions, not optimality.",
+        "precedence graph must contain every family; every path of the public variants runs the shared engine. "
+        "Decides necessary conditions, not optimality.",
         "decided": [
             "sentinel tested before arithmetic use, dominating every call on the same pair (SENTINEL)",
             "candidate totals = evaluator totals per kind incl. LT/LF labelling modes (EVENT-SIG)",
             "species ranges per kind, both orientations (CLASS-DOMAIN, MIRROR)",
             "tags name the sub-problem whose value they carry (INFO-KEY); same pairings as the unordered sibling",
-            "base variant = LCA species only, extended = all species, same engine (BASE-EXT-SHARE)",
-            "precedence graph total on its vertices, edges first->second (GRAPH-KEYS)",
+            "base variant = LCA species only, extended = all species, same engine, on every path - no cost-dependent shortcut (BASE-EXT-SHARE)",
+            "precedence graph total on its vertices, edges first->second (GRAPH-KEYS); the sorters do not consume the graph (READONLY-GRAPH)",
+            "no state survives a call, input not written, no cost used as a truth value (SOLVER-STATELESS, MEMO-KEY, READONLY-INPUT, ITERATOR-REUSE, COST-TRUTH)",
         ],
         "not_decided": [
             "optimality; completeness of the search over masks and root orders",
@@ -217,12 +223,15 @@ PROPERTY_INFO: Dict[str, Dict] = {
     "C03": {
         "explanation": "Static analysis (ast): the 20 (parent kind x class x child kind) polynomials of the unordered "
         "recurrence are composed over the six pairings and compared with the evaluator's charge under the "
-        "documented charge table; the decoder must not mutate shared sets. Necessary conditions only.",
+        "documented charge table; the decoder must not mutate shared sets and must hand each child the content "
+        "of its parent. Necessary conditions only.",
         "decided": [
             "decoding performs no in-place operation on parameters / shared sets (READONLY-DECODE)",
+            "children inherit exactly the content stored for their parent (DECODE-CONTENT-FLOW)",
             "candidate totals = evaluator totals with the unordered charge table (EVENT-SIG)",
             "ranges per kind, mirror closure, orientation, tag/row agreement, sibling pairings",
             "required-content sets computed bottom-up (TRAVERSAL)",
+            "no state survives a call; a memo table keys on every varying parameter (SOLVER-STATELESS, MEMO-KEY, READONLY-INPUT, ITERATOR-REUSE, COST-TRUTH)",
         ],
         "not_decided": [
             "optimality; that the two canonical labellings per node lose nothing",
@@ -232,26 +241,33 @@ PROPERTY_INFO: Dict[str, Dict] = {
     "C04": {
         "explanation": "Static analysis (ast): cross-check of the sibling decoders and table fills of all solvers - "
         "guards of single-node outputs, completeness of the spread mappings, leaf anchoring, sentinel "
-        "discipline, read-only decoding, event classification totality.",
+        "discipline, read-only decoding, content flow, event classification table, order of leaf syntenies "
+        "through the binarisation round trip.",
         "decided": [
-            "every node mapped (DECODE-GUARD, DECODE-COMPLETE)",
-            "decoded mapping is the costed one (COMBINE-ORIENT, INFO-KEY)",
-            "leaves pinned to their species / synteny with cost 0 (LEAF-ANCHOR)",
+            "every node mapped (DECODE-GUARD, DECODE-COMPLETE, NO-PRUNED-TRAVERSAL)",
+            "decoded mapping is the costed one (COMBINE-ORIENT, INFO-KEY, DECODE-CONTENT-FLOW)",
+            "leaves pinned to their species / synteny with cost 0 (LEAF-ANCHOR); input mappings never written (READONLY-INPUT)",
             "non-subsequences skipped while filling (SENTINEL); shared sets not mutated (READONLY-DECODE)",
-            "no candidate family can produce an INVALID event by range (CLASS-DOMAIN); node_event total (EVENT-EXHAUSTIVE)",
+            "no candidate family can produce an INVALID event by range (CLASS-DOMAIN); node_event total and equal to the documented table (EVENT-EXHAUSTIVE, EVENT-TABLE)",
+            "ordered leaf syntenies are never re-sorted on the way through to_dict/from_dict (ORDER-PRESERVED)",
+            "no stale table: nothing survives a call (SOLVER-STATELESS, MEMO-KEY)",
         ],
         "not_decided": ["finiteness of the cost and family scoping as runtime facts"],
     },
     "C05": {
         "explanation": "Static analysis (ast): data flow of the policy parameter into every Table / result Entry, "
-        "full product decoding, single result entry across loops, pruning discipline and the partial "
-        "evaluation of Entry.update's guards per retention policy.",
+        "full product decoding, single result entry across loops, pruning discipline, partial evaluation of "
+        "Entry.update's guards per retention policy; plus the conditions under which the retained set can be the "
+        "optimal set at all: the table prices every candidate as the evaluator does, offers every family, "
+        "decodes what it priced, and outputs compare by their fields.",
         "decided": [
             "policy reaches table and result entry (POLICY-FLOW)",
-            "decoders enumerate the full product of retained tags (DECODE-PRODUCT)",
+            "decoders enumerate the full product of retained tags (DECODE-PRODUCT, ITERATOR-REUSE)",
             "one result entry across refinements and root orders, ranked by cost() (RESULT-SCOPE)",
-            "co-optimal candidates are not pruned early (PRUNE)",
+            "co-optimal candidates are not pruned early (PRUNE); table prices = evaluator prices, all families offered (EVENT-SIG, COSTKEYS, CLASS-DOMAIN, MIRROR)",
+            "what is decoded is what was priced (INFO-KEY, COMBINE-ORIENT, DECODE-CONTENT-FLOW, READONLY-DECODE, MEMO-KEY)",
             "entry semantics per policy (UPDATE-PAIRING, RETENTION-GUARDS, COMBINE-PRODUCT)",
+            "distinct solutions are not merged by a name-based equality (EQ-BY-FIELDS); nothing survives a call (SOLVER-STATELESS)",
         ],
         "not_decided": [
             "equality of the returned set with the true optimal set",
@@ -261,28 +277,34 @@ PROPERTY_INFO: Dict[str, Dict] = {
     "C06": {
         "explanation": "Static analysis (ast): the evaluator's polynomial per event kind (unit cost, full-loss "
         "polynomial, labelling terms and the optimal / fixed choice of the free copy) is extracted by copy "
-        "propagation and compared with a 12-line table of the documented model; ordered and unordered "
-        "evaluators are cross-checked as siblings.",
+        "propagation and compared with a table of the documented model, including HOW the alternatives are "
+        "chosen (min vs mapping test); node_event and every conserved-child test are evaluated as decision "
+        "tables over a finite relational model; ordered and unordered evaluators are cross-checked as siblings; "
+        "the command line passes the requested cost vector through verbatim.",
         "decided": [
-            "unit cost key, full-loss polynomial and labelling modes per kind = documented model (MODEL-TABLE)",
+            "unit cost key, full-loss polynomial, labelling modes and selector per kind = documented model (MODEL-TABLE)",
+            "node_event = documented classification on every order type of (node, child, child) (EVENT-TABLE)",
+            "every conserved-child test separates exactly the conserved from the transferred child (CONSERVED-SIDE)",
             "ordered and unordered evaluators charge the same child roles (LABEL-SIBLINGS)",
             "every event member handled, INVALID -> inf, LEAF -> 0 (EVENT-EXHAUSTIVE)",
-            "masks computed parents-first (TRAVERSAL); CLI prints cost() of what it writes (CLI-COST-SOURCE)",
+            "masks computed parents-first (TRAVERSAL); CLI prints cost() of what it writes, for the cost vector that was requested (CLI-COST-SOURCE, COST-PASSTHROUGH, COST-TRUTH, FIELD-COPY-COMPLETE)",
+            "the evaluator keeps no state between calls (SOLVER-STATELESS)",
         ],
         "not_decided": [
-            "node_event's classification predicate (ancestor relations at run time)",
-            "values of distance() and subseq_segment_dist()",
+            "values of distance(), the LCA oracle and subseq_segment_dist() (C17, C18)",
         ],
     },
     "C07": {
         "explanation": "Static analysis (ast, dataflow of one function): the LCA reconciliation assigns a leaf its "
         "given species and every internal node the LCA oracle of the images of all its children, in post-order, "
-        "and returns that mapping. Decides that the mapping computed is 'LCA of the children's images' (hence, by "
-        "induction, of the species of its leaves) - a necessary condition of the property; optimality and "
-        "uniqueness are not decided.",
+        "into a fresh mapping, and returns that mapping. Decides that the mapping computed is 'LCA of the "
+        "children's images' (hence, by induction, of the species of its leaves) - a necessary condition of the "
+        "property; optimality and uniqueness are not decided.",
         "decided": [
             "leaf anchored to leaf_object_species; internal image = species_lca over the images of all children (LCA-PROPAGATE)",
             "children computed before their parent (TRAVERSAL)",
+            "the input's own mapping is not written, the LCA oracle shares nothing between instances (READONLY-INPUT, SOLVER-STATELESS)",
+            "cost vectors read from a dictionary keep explicit zero costs (COST-TRUTH)",
         ],
         "not_decided": [
             "minimality among all reconciliations and uniqueness for positive loss cost (numerical for-all)",
@@ -291,98 +313,128 @@ PROPERTY_INFO: Dict[str, Dict] = {
     },
     "C08": {
         "explanation": "Static analysis (ast): every Newick write/read site, the field tables of the model "
-        "classes, the attribute copy in binarize, freshness of attached subtrees and the loop structure "
-        "around binarize() are checked.",
+        "classes, the attribute copy in binarize, freshness of attached subtrees, forwarding of the 'protected "
+        "clades' constraint through the recursion, one-shot iterators and the loop structure around binarize().",
         "decided": [
             "refinements re-serialised with names, root name and colour; read back with a name-preserving format",
-            "all input fields survive the to_dict/from_dict rebuild",
+            "all input fields survive the to_dict/from_dict rebuild; ordered syntenies keep their order (ORDER-PRESERVED)",
             "names and colours of the original nodes copied onto every refinement (FEATURE-COPY)",
-            "each refinement labelled before use; single result entry spans all refinements",
+            "each refinement labelled before use, generated names collision-checked in a loop (LABEL-PASS, LABEL-GUARD); single result entry spans all refinements",
             "enumerated trees never share sub-trees (FRESH-ATTACH); polytomies resolved bottom-up (TRAVERSAL)",
+            "graft forwards its `ignore` set in every recursive call (RECURSE-FORWARD); the product of refinements is not built from an exhausted iterator (ITERATOR-REUSE)",
         ],
         "not_decided": ["the count (2k-3)!! and 'exactly once'", "that the optimum over refinements is attained"],
     },
     "C09": {
         "explanation": "Static analysis (ast): closure of the candidate families of the three recurrences under "
-        "exchange of the two children (class signatures = species range + cost polynomial).",
-        "decided": ["child-order symmetry of the candidate families of THL, SPFS and USPFS (MIRROR, CLASS-DOMAIN coverage)"],
-        "not_decided": ["renaming, outgroup, re-run determinism, cost scaling and monotonicity (runtime relations)"],
+        "exchange of the two children; homogeneity (degree one) and monotonicity (non-negative coefficient of "
+        "every unit cost) of every value the optimisers and the evaluator compute; absence of state that makes a "
+        "second run or another visiting order see different data.",
+        "decided": [
+            "child-order symmetry of the candidate families of THL, SPFS and USPFS (MIRROR, CLASS-DOMAIN coverage)",
+            "every value is a homogeneous linear form in the unit costs: scaling all costs by k scales every value by k (COST-HOMOGENEOUS)",
+            "every unit cost has a coefficient that cannot be negative: raising it never lowers a value (COST-MONOTONE)",
+            "re-run / visiting-order independence: nothing shared is mutated, nothing survives a call (READONLY-DECODE, READONLY-INPUT, SOLVER-STATELESS, MEMO-KEY)",
+        ],
+        "not_decided": ["renaming and outgroup invariance, hash/iteration order of Python sets (runtime)"],
     },
     "C10": {
-        "explanation": "Static analysis (ast): 'extended <= base' by inclusion of search spaces through one shared engine.",
-        "decided": ["base/extended share the engine; extended offers all species nodes, base the LCA species (BASE-EXT-SHARE)"],
-        "not_decided": ["unordered <= ordered, DTL <= LCA, the single-family equalities"],
+        "explanation": "Static analysis (ast): 'extended <= base' by inclusion of search spaces through one shared, "
+        "stateless engine run on every path; the three optimisers are compared with the SAME evaluator "
+        "signature, which is the structural content of 'the models coincide on single-family inputs'.",
+        "decided": [
+            "base/extended share the engine on every path; extended offers all species nodes, base the LCA species (BASE-EXT-SHARE)",
+            "THL, SPFS and USPFS all price events as the one evaluator does (EVENT-SIG, COSTKEYS); SPFS and USPFS use the same pairings (SIBLING-PAIRING)",
+            "the engine is a function of its arguments (READONLY-DECODE, SOLVER-STATELESS)",
+        ],
+        "not_decided": ["unordered <= ordered, DTL <= LCA and the single-family equalities as numerical facts"],
     },
     "C11": {
         "explanation": "Static analysis (ast): writer/reader key tables of the four model classes, Newick "
-        "arguments, enum disjointness and mapping keying.",
+        "arguments, enum disjointness, mapping keying (exact names both ways), verbatim cost values, order of "
+        "syntenies, no serialisation cache.",
         "decided": [
             "to_dict keys = _from_dict keys; _from_dict builds exactly the dataclass fields (DICT-KEYS, FIELDS-SERIALISED)",
             "trees written with names, root, colour and read with a compatible format (TREE-WRITE-ARGS)",
-            "cost keys unambiguous (ENUM-DISJOINT); mappings keyed by name both ways (MAPPING-KEYING)",
+            "cost keys unambiguous (ENUM-DISJOINT); mappings keyed by exact name both ways, no normalising index (MAPPING-KEYING)",
+            "cost values stored verbatim both ways, explicit zero and float infinity included (COST-PASSTHROUGH, COST-TRUTH)",
+            "only sets are re-ordered when written (ORDER-PRESERVED); no cached serialisation outlives a relabelling (SOLVER-STATELESS)",
         ],
         "not_decided": ["equality of the reloaded object (ete3's Newick parser/writer are outside the analysed source)"],
     },
     "C12": {
         "explanation": "Static analysis (ast): must-pass-through of label_internal on every path to a registered "
-        "algorithm, guards inside label_internal, registry signatures, option/enum agreement, error path.",
+        "algorithm, guards inside label_internal, registry signatures, option/enum agreement, error path, "
+        "verbatim cost options, class dispatch on key presence.",
         "decided": [
             "every registered algorithm receives a labelled input (LABEL-PASS)",
             "named nodes never renamed, generated names collision-checked, pre-order (LABEL-GUARD)",
             "registry only contains dispatchable signatures (REGISTRY-SIGNATURE); choices map onto enum members (CHOICES-ENUM)",
             "'needs syntenies' path returns before the algorithm runs, exit status 1, nothing dumped (ERROR-PATH)",
-            "one option per cost key (COST-OPTIONS); printed cost source (CLI-COST-SOURCE)",
+            "one option per cost key, passed verbatim incl. 0, and kept when the input is rebuilt (COST-OPTIONS, COST-PASSTHROUGH, COST-TRUTH, FIELD-COPY-COMPLETE); printed cost source (CLI-COST-SOURCE)",
+            "draw / reconcile pick the labelled class only when the keys it needs are present (DISPATCH-KEYS)",
+            "one result entry over all refinements whatever the policy - a necessary condition of 'all contains any' (RESULT-SCOPE)",
         ],
-        "not_decided": ["distinctness of names at run time", "all superset of any", "draw accepting every object"],
+        "not_decided": ["distinctness of names at run time", "all superset of any as a set relation", "draw accepting every object beyond the key dispatch"],
     },
     "C13": {
         "explanation": "Static analysis (ast): kind dispatches are exhaustive and agree between layout, measuring "
         "and drawing; path enumeration counts event nodes and arrows per handler; loss insertion is compared "
-        "with the evaluator's full-loss polynomial.",
+        "with the evaluator's full-loss polynomial; virtual loss nodes are distinct keys and form a chain.",
         "decided": [
             "KIND-EXHAUSTIVE, KIND-AGREE, ONE-EVENT-NODE, ONE-ARROW",
             "LOSS-MARKERS (oracle: evaluator signature), STYLE-DEFINED, MEASURE-LOCKSTEP",
+            "every object node is visited (NO-PRUNED-TRAVERSAL); loss nodes compare by identity and link to the previous one (IDENTITY-KEYS, LOSS-CHAIN)",
+            "a drawing does not inherit layers from an earlier one (SOLVER-STATELESS)",
         ],
-        "not_decided": ["that each node is placed in the species it is mapped to (run-time filter)", "marker positions"],
+        "not_decided": ["that each node is placed in the species it is mapped to (run-time filter)", "marker coordinates"],
     },
     "C14": {
         "explanation": "Static analysis (ast transformation): the transposition sigma is applied to the syntax "
         "trees of render/layout.py and utils/geometry.py and the canonical forms are compared - a syntactic "
         "proof that the horizontal layout is the transposed vertical layout of the transposed sizes.",
-        "decided": ["horizontal = transposed vertical (SIGMA-INVARIANCE + SIGMA-CLOSURE)"],
-        "not_decided": ["finiteness, non-overlap, containment, anchor existence, idempotence"],
+        "decided": [
+            "horizontal = transposed vertical (SIGMA-INVARIANCE + SIGMA-CLOSURE)",
+            "computing twice gives the same result: no state kept (SOLVER-STATELESS)",
+            "every level of a multi-level loss references the node created just before (LOSS-CHAIN) - necessary for 'every anchor referenced exists'",
+        ],
+        "not_decided": ["finiteness, non-overlap, containment, anchor existence in general"],
     },
     "C15": {
         "explanation": "Static analysis (ast): skeletons of all TeX templates (brace balance, termination), "
         "structure of render(), colour interning, taint tracking from names to templates through tex.escape, "
-        "order of the escape chain, label omission guard, no loop-carried colour state.",
+        "order of the escape chain, label omission guard, colour inheritance idiom vs traversal order, source of "
+        "the colour of loss nodes, discipline of the balanced wrapper.",
         "decided": [
             "balanced braces and terminated statements for brace-free interpolants (TEMPLATE-*)",
             "single picture environment (PICTURE-ENV); colours defined before use (COLOR-INTERN)",
             "names escaped on every flow, in an order that does not double-escape (ESCAPE-TAINT, ESCAPE-ORDER)",
-            "label omitted only when equal to the parent's (LABEL-OMIT); colour inheritance from the parent (PREORDER-STATE)",
+            "label omitted only when equal to the parent's (LABEL-OMIT)",
+            "colour = nearest coloured ancestor: parent read in pre-order or descendants painted in post-order, no scalar carried across siblings, never read from a virtual node (COLOR-INHERIT, PREORDER-STATE, COLOR-SOURCE)",
+            "wrapped labels: words never split, width only narrowed, candidate accepted only with the greedy line count (WRAP-DISCIPLINE)",
         ],
-        "not_decided": ["wrapping clauses (behaviour of textwrap)", "that a label lists exactly the node's families"],
+        "not_decided": ["behaviour of textwrap itself", "that a label lists exactly the node's families"],
         "assumptions": ["names and family names contain no braces (the property's quantifier)"],
     },
     "C16": {
         "explanation": "Static analysis (ast): path enumeration of Entry.update, partial evaluation of its guards "
-        "with the policies fixed, polarity of defaults and comparisons, None-domination in EntryProxy, "
-        "structure of Entry.combine.",
-        "decided": ["UPDATE-PAIRING, RETENTION-GUARDS, POLARITY, PROXY-NONE, COMBINE-PRODUCT"],
+        "with the policies fixed, polarity of defaults, comparisons and explicit constructions, None-domination "
+        "in EntryProxy, structure of Entry.combine, freshness of table cells.",
+        "decided": ["UPDATE-PAIRING, RETENTION-GUARDS, POLARITY (incl. every Entry(...) construction), PROXY-NONE, COMBINE-PRODUCT, TABLE-FRESH-CELLS"],
         "not_decided": ["that Python's comparison on infinity.Infinity is a total order (trusted)"],
     },
     "C19": {
         "explanation": "Static analysis (ast): pairing of in-degree decrements and restores around the recursive "
-        "call, freshness of the per-iteration start set, edge counting and cycle rejection, totality of the "
-        "precedence graph.",
-        "decided": ["RESTORE-PAIRING, FRESH-STARTS, INDEG-INIT, GRAPH-KEYS"],
+        "call, freshness of the per-iteration start set, edge counting and cycle rejection, evidence required "
+        "for the 'no ordering' answer, read-only graph, totality of the precedence graph.",
+        "decided": ["RESTORE-PAIRING, FRESH-STARTS, INDEG-INIT, GRAPH-KEYS, READONLY-GRAPH, EMPTY-RESULT-GUARD"],
         "not_decided": ["completeness / uniqueness of the enumeration as such", "Kahn's loop"],
     },
     "C20": {
         "explanation": "Static analysis (ast): branch isolation of the two-block enumeration (deep copies) and of "
-        "the tree enumeration (fresh attachments, interprocedural freshness summaries).",
-        "decided": ["COPY-BEFORE-MUTATE", "FRESH-ATTACH"],
+        "the tree enumeration (fresh attachments, interprocedural freshness summaries); pairing of links and "
+        "block counter in unite; source of the leaf set of a supertree problem.",
+        "decided": ["COPY-BEFORE-MUTATE", "FRESH-ATTACH", "GROUPS-PAIRING", "LEAVES-SOURCE"],
         "not_decided": ["every 'exactly the trees displaying every triple' clause", "union-find values"],
     },
 }
